@@ -7,7 +7,6 @@ import (
 	"errors"
 	"fmt"
 	"io"
-	"log"
 	"math"
 
 	"github.com/foxglove/mcap/go/mcap"
@@ -45,8 +44,14 @@ func headerToMap(header []byte) (map[string]string, error) {
 	offset := 0
 	m := make(map[string]string)
 	for offset < len(header) {
+		if len(header)-offset < 4 {
+			return nil, fmt.Errorf("short header field length")
+		}
 		fieldlen := binary.LittleEndian.Uint32(header[offset : offset+4])
 		offset += 4
+		if uint64(fieldlen) > uint64(len(header)-offset) {
+			return nil, fmt.Errorf("header field length %d exceeds remaining header length %d", fieldlen, len(header)-offset)
+		}
 		index := bytes.IndexByte(header[offset:offset+int(fieldlen)], '=')
 		if index < 0 {
 			return nil, fmt.Errorf("missing kv separator")
@@ -74,6 +79,9 @@ func extractHeaderValue(header []byte, key []byte) ([]byte, error) {
 		if err != nil {
 			return nil, fmt.Errorf("failed to extract field length: %w", err)
 		}
+		if uint64(fieldlen) > uint64(len(header)-offset) {
+			return nil, fmt.Errorf("header field length %d exceeds remaining header length %d", fieldlen, len(header)-offset)
+		}
 		field := header[offset : offset+int(fieldlen)]
 		separatorIdx := bytes.Index(field, []byte{'='})
 		if separatorIdx < 0 {
@@ -99,10 +107,10 @@ func processBag(
 		magic := make([]byte, len(BagMagic))
 		_, err := io.ReadFull(r, magic)
 		if err != nil {
-			log.Fatal(err)
+			return fmt.Errorf("failed to read bag magic: %w", err)
 		}
 		if !bytes.Equal(magic, BagMagic) {
-			log.Fatal("not a bag")
+			return errors.New("not a bag")
 		}
 	}
 
@@ -131,10 +139,7 @@ func processBag(
 		headerlen := binary.LittleEndian.Uint32(buf[:4])
 
 		// header
-		if len(header) < int(headerlen) {
-			header = make([]byte, headerlen*2)
-		}
-		_, err = io.ReadFull(activeReader, header[:headerlen])
+		header, err = readSized(activeReader, header, headerlen)
 		if err != nil {
 			return err
 		}
@@ -154,20 +159,18 @@ func processBag(
 			return err
 		}
 
+		if len(opcode) != 1 {
+			return fmt.Errorf("invalid op field of length %d", len(opcode))
+		}
+
 		if opcode[0] == OpBagChunk {
 			// data
-			if len(chunkData) < int(datalen) {
-				chunkData = make([]byte, datalen*2)
-			}
-			_, err = io.ReadFull(activeReader, chunkData[:datalen])
+			chunkData, err = readSized(activeReader, chunkData, datalen)
 			if err != nil {
 				return err
 			}
 		} else {
-			if len(data) < int(datalen) {
-				data = make([]byte, datalen*2)
-			}
-			_, err = io.ReadFull(activeReader, data[:datalen])
+			data, err = readSized(activeReader, data, datalen)
 			if err != nil {
 				return err
 			}
@@ -218,6 +221,25 @@ func processBag(
 	return nil
 }
 
+// readSized reads n bytes from r into buf, growing it if necessary, and returns the (possibly
+// new) buffer. The size comes from the input: beyond the current buffer the bytes are accumulated
+// as they arrive, so that a hostile length cannot request memory for data that is not there.
+func readSized(r io.Reader, buf []byte, n uint32) ([]byte, error) {
+	if uint64(n) <= uint64(len(buf)) {
+		_, err := io.ReadFull(r, buf[:n])
+		return buf, err
+	}
+	grown := bytes.NewBuffer(make([]byte, 0, 2*len(buf)))
+	if _, err := io.CopyN(grown, r, int64(n)); err != nil {
+		if errors.Is(err, io.EOF) {
+			err = io.ErrUnexpectedEOF
+		}
+		return buf, err
+	}
+	b := grown.Bytes()
+	return b[:cap(b)], nil
+}
+
 func channelIDForConnection(connID uint32) (uint16, error) {
 	if connID > math.MaxUint16 {
 		return 0, ErrTooManyConnections
@@ -245,6 +267,9 @@ func Bag2MCAP(w io.Writer, r io.Reader, opts *mcap.WriterOptions, messageCallbac
 			conn, err := extractHeaderValue(header, headerConn)
 			if err != nil {
 				return err
+			}
+			if len(conn) != 4 {
+				return fmt.Errorf("invalid conn field of length %d", len(conn))
 			}
 			connID := binary.LittleEndian.Uint32(conn)
 			topic, err := extractHeaderValue(header, headerTopic)
@@ -294,10 +319,16 @@ func Bag2MCAP(w io.Writer, r io.Reader, opts *mcap.WriterOptions, messageCallbac
 			if err != nil {
 				return err
 			}
+			if len(conn) != 4 {
+				return fmt.Errorf("invalid conn field of length %d", len(conn))
+			}
 			connID := binary.LittleEndian.Uint32(conn)
 			time, err := extractHeaderValue(header, headerTime)
 			if err != nil {
 				return err
+			}
+			if len(time) != 8 {
+				return fmt.Errorf("invalid time field of length %d", len(time))
 			}
 			nsecs := rosTimeToNanoseconds(time)
 			channelID, err := channelIDForConnection(connID)
